@@ -35,7 +35,10 @@ Oracles    : implementation only, judged by harness/lib/sqlref.py (plain Python,
                           without rows, text as value set / between argument, the flag False)
              Every table generator also produces data files WITHOUT rows (append_records([]) / append_data([]) commit one), the
              filter generators columns the table does not have, str / bytes where a value set or a (lo, hi) pair is expected,
-             and ('is_null', False); the long-text domains contain values at and around random length boundaries with astral
+             and ('is_null', False); in / not_in value sets are held by EVERY iterable kind (list, tuple, set, frozenset, dict
+             views, range, deque, iterator, generator, map object -- a fresh object for every single call, sqlref.realise -- and a
+             dict, which is not a value set); every oracle also runs tables WRITTEN by a process in one time zone and READ by a
+             process in another (POSIX TZ strings, harness/lib/procconf.py; always when a column is temporal); the long-text domains contain values at and around random length boundaries with astral
              tails, and the literals around a text value include every truncation of it, closed and not closed by U+FFFF / U+10FFFF.
 Findings   : five defects of the unchanged tree (findings/C12-*unchanged-tree.log, findings/C12-replay-*.json), all repaired on
              the library branch: (1) scan(filter, verify_checksums=False) pushed the filter into pq.read_table, whose row-group
@@ -43,7 +46,10 @@ Findings   : five defects of the unchanged tree (findings/C12-*unchanged-tree.lo
              the expression when every file was pruned; (3) on a data file WITHOUT rows scan_batches / iter_records evaluated
              nothing and returned [] where scan() raised on a filter pyarrow cannot bind (unknown column, literal of the wrong
              type); (4) a str / bytes given as in / not_in value set or as between argument was iterated / unpacked character by
-             character; (5) the flag of is_null / is_not_null was ignored: ('is_null', False) selected the NULL rows.
+             character; (5) the flag of is_null / is_not_null was ignored: ('is_null', False) selected the NULL rows;
+             (6) an in / not_in value set was iterated twice (expression build, then file pruning): a one-shot iterable
+             (iterator, generator, map) was empty for pruning, every file was skipped and ('in', iter([7])) returned no rows on
+             a table holding 7; a dict was read as the set of its keys (findings/C12-one-shot-value-set-unchanged-tree.log).
              Open (modelled, C12_api_agree_empty_projection_refuted, excluded from
              the oracle): scan(columns=[]) returns no rows (pa.concat_tables) while the batch APIs yield one {} per row.
              Reading: a NULL inside an in / not_in value set is dropped (documented contract); for NOT IN that is not the SQL
@@ -67,7 +73,7 @@ import shutil
 from typing import Any, Dict, List, Optional, Tuple
 
 from harness.lib import c12_hist as hist
-from harness.lib import coqbuild, sqlref
+from harness.lib import coqbuild, procconf, sqlref
 from harness.lib.coqio import C, Some, coq_string
 from harness.lib import values as _values
 from harness.lib.values import LITERALS as _LITERALS, NAN, same, val_to_coq, vals_to_coq
@@ -102,10 +108,11 @@ def val_unjson(j):
 LEVEL = "proof"
 THEOREMS = ["C12_compile_correct", "C12_compile_total", "C12_conj", "C12_api_agree", "C12_api_sql", "C12_api_sql_sound_bounds", "C12_text_bounds_conservative", "C12_prefix_lower_bound",
             "C12_prefix_upper_bound_refuted", "C12_typed_evaluates", "C12_refused_raises", "C12_zero_row_file_check_needed",
-            "C12_strict", "C12_strict_value_set", "C12_strict_everywhere", "C12_operator_faithful", "C12_operator_table", "C12_special_keys",
+            "C12_strict", "C12_strict_value_set", "C12_strict_value_set_mapping", "C12_value_set_kind_irrelevant",
+            "C12_one_shot_second_reading_empty", "C12_strict_everywhere", "C12_operator_faithful", "C12_operator_table", "C12_special_keys",
             "C12_project_after", "C12_not_in_nulls_dropped", "C12_not_in_null_differs_from_sql",
             "C12_api_agree_empty_projection_refuted",
-            "C12_manifest_roundtrip", "C12_rewrite_decision", "C12_history_view", "C12_history_files", "C12_history_sql"]
+            "C12_manifest_roundtrip", "C12_rewrite_decision", "C12_history_view", "C12_history_files", "C12_history_files_distinct_paths", "C12_history_sql"]
 GEN_FILES = ["GenFilter.v", "GenFilterConst.v", "GenPrune.v", "GenBound.v", "GenManifest.v"]
 REQ = ["DS.Model.Value", "DS.Model.FilterExpr", "DS.Gen.GenPrune", "DS.Model.Prune", "DS.Gen.GenFilterConst", "DS.Gen.GenFilter",
        "DS.Model.Filter"]
@@ -118,15 +125,19 @@ MANIFEST_ENTRY = {
                   "project cols (filter sql (concat files)), pruning included), C12_refused_raises (an expression pyarrow refuses to "
                   "bind, or refuses on a row, raises in EVERY API; C12_zero_row_file_check_needed: why the batch readers must show "
                   "a file without rows to pyarrow), C12_strict (the parser fails EXACTLY on the conditions outside the documented "
-                  "language -- unknown / non-string operator, {c: None}, a str as value set or as between argument, the flag "
-                  "False -- and otherwise returns exactly their independent meaning), C12_strict_value_set, C12_strict_everywhere, "
+                  "language -- unknown / non-string operator, {c: None}, a str / scalar / mapping as value set, a str as between "
+                  "argument, the flag False -- and otherwise returns exactly their independent meaning), C12_strict_value_set, "
+                  "C12_strict_value_set_mapping, C12_value_set_kind_irrelevant (a value set held by any other iterable -- set, dict "
+                  "view, range, an iterator or generator that can be read only once -- gives, in every API on every table, the "
+                  "answer of the list of the same values: it is read once, by the parser), C12_strict_everywhere, "
                   "C12_operator_faithful / C12_operator_table (the regenerated tables ARE the independent reading of the "
                   "spellings), C12_not_in_nulls_dropped / C12_not_in_null_differs_from_sql (NULLs in a NOT IN value set are "
                   "dropped: exactly how that differs from the SQL standard), C12_project_after, and for tables "
                   "with a HISTORY C12_history_view / C12_history_files / C12_history_sql (after any sequence of committed "
                   "transactions -- multi-file appends, deletes that keep / rewrite / drop manifests, both at once -- the data "
                   "files a scan finds and the bounds pruning reads are those of the flat list semantics, and every API returns "
-                  "the SQL answer on the live files), C12_manifest_roundtrip, C12_rewrite_decision -- proved in Coq, "
+                  "the SQL answer on the live files; no hypothesis that paths are distinct: a path registered twice is read once, "
+                  "C12_history_files states the dedup form), C12_manifest_roundtrip, C12_rewrite_decision -- proved in Coq, "
                   "unbounded, over the filter compiler and operator tables regenerated from filters.py and the manifest bound "
                   "expressions / rewrite decision regenerated from file_manager.py / transaction.py on every run; pyarrow "
                   "primitive semantics, parser, builder, the four read pipelines and the manifest machine tied to the real code "
@@ -140,13 +151,19 @@ MANIFEST_ENTRY = {
                   "evaluation), B (expressions pyarrow refuses to bind to the files' schema, rows or no rows), PA (literals pyarrow "
                   "refuses when building) are universally quantified; the three argument guards of parse_filter_dict are pinned by "
                   "golden AST and modelled by hand (unpack2, flag_true, text_value_set; bytes value sets are outside the Coq value "
-                  "type: oracle only); executor.map order preservation for parallel scans; date vs "
+                  "type: oracle only); the value-set guard `isinstance(value, Mapping)` / `value = list(value)` is pinned by the same "
+                  "golden AST and modelled by hand (value_set, value_set_iter; an iterable is abstracted to the values it yields and "
+                  "whether it yields them again: iterk); an iterable that is not a list as the literal of a COMPARISON is modelled as "
+                  "the list literal (pyarrow refuses both; whether at build or at evaluation is PA's choice, not tied to the kind); "
+                  "C12_one_shot_second_reading_empty is explanatory (what the second reader of the unrepaired code saw); the time zone "
+                  "of the process is not in the model (the codec is zone-free): oracle and 'history' correspondence only; executor.map order preservation for parallel scans; date vs "
                   "timestamp comparisons (pyarrow casts, Python refuses) are outside the model and covered by the oracle only",
     "technique": "Coq proof over translator-regenerated filter compiler and manifest kernels (induction over transaction histories) "
                  "+ differential correspondence + independent SQL oracle over random and directed table histories",
     "design_ref": "DESIGN.md section 5 C12",
 }
 
+TEMPORAL_KINDS = ["timestamp", "date", "time"]
 OPS = ["EQ", "NE", "LT", "LE", "GT", "GE", "IN", "NOT_IN", "IS_NULL", "IS_NOT_NULL"]
 SCALAR_OPS = ["EQ", "NE", "LT", "LE", "GT", "GE"]
 CMPOP = {"EQ": "CEq", "NE": "CNe", "LT": "CLt", "LE": "CLe", "GT": "CGt", "GE": "CGe"}
@@ -181,9 +198,14 @@ def opkey_coq(opkey: Tuple[str, Any]) -> str:
     return "OpOther"
 
 
+ITERK_COQ = dict({k: "IAgain" for k in sqlref.REITERABLE_KINDS}, **{k: "IOnce" for k in sqlref.ONE_SHOT_KINDS}, **{k: "IMap" for k in sqlref.MAPPING_KINDS})
+
+
 def cond_coq(cond: Tuple) -> str:
     if cond[0] == "plain":
         return f"(CPlain {arg_coq(cond[1])})"
+    if cond[2][0] in ITERK_COQ:
+        return f"(CPairIter {opkey_coq(cond[1])} {ITERK_COQ[cond[2][0]]} {vals_to_coq(list(cond[2][1]))})"
     return f"(CPair {opkey_coq(cond[1])} {arg_coq(cond[2])})"
 
 
@@ -358,6 +380,38 @@ def gen_literal(rng, kind: str, cross: float, dom: Optional[List[Any]] = None) -
     return v
 
 
+def value_set_arg(rng, vals: List[Any], iterable: float = 0.45) -> Tuple[str, List[Any]]:
+    """The value set `vals` as a list / tuple or -- with probability `iterable` -- as any other iterable kind (set, frozenset,
+    dict view, range, deque, iterator, generator, map, and a dict, which is not a value set): sqlref.VALUE_SET_KINDS."""
+    if rng.random() < iterable:
+        kind = rng.choice(sqlref.ITERABLE_KINDS + sqlref.ONE_SHOT_KINDS)        # the one-shot kinds twice as often
+        if kind == "range" and not all(isinstance(v, int) and not isinstance(v, bool) for v in vals):
+            kind = "iter"
+        if kind == "range" and vals:
+            vals = list(range(min(vals), min(vals) + len(vals))) if max(vals) - min(vals) > 8 else list(range(min(vals), max(vals) + 1))
+        return sqlref.fit_value_set(kind, vals)
+    return (rng.choice(["list", "tuple"]) if len(vals) != 2 else "list", vals)
+
+
+def vary_value_sets(flt: List[Tuple[str, Tuple]], k: int) -> List[Tuple[str, Tuple]]:
+    """The same filter with every in / not_in value set held by the k-th iterable kind (the directed oracles rotate k)."""
+    out = []
+    for c, cd in flt:
+        if cd[0] == "pair" and cd[1][0] == "str" and sqlref.SPELLINGS.get(str(cd[1][1]).lower()) in ("IN", "NOT_IN") and cd[2][0] in ("list", "tuple"):
+            kind = sqlref.ITERABLE_KINDS[k % len(sqlref.ITERABLE_KINDS)]
+            vals = list(cd[2][1])
+            if kind == "range":
+                kind = "gen"
+            cd = ("pair", cd[1], sqlref.fit_value_set(kind, vals))
+        out.append((c, cd))
+    return out
+
+
+def has_value_set(flt: List[Tuple[str, Tuple]]) -> bool:
+    return any(cd[0] == "pair" and cd[2][0] in ("list", "tuple") and cd[1][0] == "str"
+               and sqlref.SPELLINGS.get(str(cd[1][1]).lower()) in ("IN", "NOT_IN") for _c, cd in flt)
+
+
 def gen_cond(rng, kind: str, cross: float = 0.15, malformed: float = 0.0, dom: Optional[List[Any]] = None,
              pick: Optional[Any] = None) -> Tuple:
     """`pick`: optional literal source overriding the domain (used for literals at a file's min / max)."""
@@ -394,7 +448,7 @@ def gen_cond(rng, kind: str, cross: float = 0.15, malformed: float = 0.0, dom: O
         op = rng.choice(["in", "not_in", "not in", "notin"])
         n = rng.choice([0, 1, 1, 2, 3])
         vals = [None if rng.random() < 0.15 else lit(cross) for _ in range(n)]
-        return ("pair", ("str", rand_case(rng, op)), (rng.choice(["list", "tuple"]) if n != 2 else "list", vals))
+        return ("pair", ("str", rand_case(rng, op)), value_set_arg(rng, vals))
     if r < 0.9:
         lo, hi = lit(cross), lit(cross)
         return ("pair", ("str", rand_case(rng, "between")), (rng.choice(["list", "tuple"]), [lo, hi]))
@@ -474,12 +528,38 @@ def gen_columns(rng, case: Dict[str, Any]) -> Optional[List[str]]:
     return rng.sample(cols, k)
 
 
+# ----------------------------------------------------------------------------------- process environment: the time zone
+# A case may carry "tz": [zone of the process that WRITES the table, zone of the process that READS it] (POSIX TZ strings,
+# harness/lib/procconf.py).  Columns hold naive datetimes: neither zone may change which rows a filter selects, what a
+# manifest stores, or what is decoded from it.  Without "tz" the process stays as the harness found it.
+def write_zone(case: Dict[str, Any]) -> Optional[str]:
+    return case["tz"][0] if case.get("tz") else None
+
+
+def read_zone(case: Dict[str, Any]) -> Optional[str]:
+    return case["tz"][1] if case.get("tz") else None
+
+
+def reading(case: Dict[str, Any]):
+    return procconf.timezone(read_zone(case), keep="tz" not in case)
+
+
+def with_tz(rng, case: Dict[str, Any], p: float = 1.0) -> Dict[str, Any]:
+    """The case with a (write zone, read zone) pair drawn: equal zones, UTC on either side, two different zones."""
+    if rng.random() < p:
+        r = procconf.draw_tz(rng, 0.85)
+        w = r if rng.random() < 0.5 else procconf.draw_tz(rng, 0.5)
+        return dict(case, tz=[w, r])
+    return case
+
+
 # =================================================================================== the real library
 def make_table(path: str, case: Dict[str, Any]):
     """The table of a case: its files appended one by one, or -- when the case has a "history" -- built by that sequence of
     multi-file / deleting / mixed / expiring / aborted transactions, collections and reloads (harness/lib/c12_hist.py)."""
     shutil.rmtree(path, ignore_errors=True)
-    return hist.build(path, case)[0]
+    with procconf.timezone(write_zone(case), keep="tz" not in case):
+        return hist.build(path, case)[0]
 
 
 API_VARIANTS: List[Tuple[str, Any]] = []
@@ -497,7 +577,8 @@ def run_apis(table, columns: Optional[List[str]], fpy: Optional[Dict[str, Any]])
     out = {}
     for name, fn in API_VARIANTS:
         try:
-            rows = fn(table, list(columns) if columns is not None else None, fpy)
+            # a FRESH filter dict per call: a value set may be a one-shot iterator (sqlref.realise)
+            rows = fn(table, list(columns) if columns is not None else None, sqlref.realise(fpy))
             out[name] = ("rows", sqlref.canon_rows(rows))
         except Exception as e:  # noqa: BLE001 - every exception class is an observation here
             out[name] = ("raises", type(e).__name__)
@@ -590,6 +671,8 @@ def case_json(case, flt, columns, extra=None):
     if case.get("history") is not None:
         d["history"] = case["history"]
         d["live_files"] = hist.live_indexes(case)
+    if case.get("tz"):
+        d["tz"] = list(case["tz"])
     d.update(extra or {})
     return d
 
@@ -598,6 +681,8 @@ def case_unjson(d):
     case = {"cols": d["cols"], "kinds": d["kinds"], "files": [[{k: val_unjson(v) for k, v in r.items()} for r in f] for f in d["files"]]}
     if d.get("history") is not None:
         case["history"] = d["history"]
+    if d.get("tz"):
+        case["tz"] = list(d["tz"])
     flt = [(c, cond_unjson(cd)) for c, cd in d["filter"]]
     return case, flt, d["columns"]
 
@@ -618,14 +703,18 @@ def pool():
 
 def wire(case: Dict[str, Any]) -> Dict[str, Any]:
     """What a child needs of a case."""
-    return {k: case[k] for k in ("cols", "kinds", "files", "history") if k in case}
+    return {k: case[k] for k in ("cols", "kinds", "files", "history", "tz") if k in case}
 
 
 def w_run_table(path: str, case: Dict[str, Any], requests: List[Tuple[Optional[List[str]], Optional[Dict[str, Any]]]]):
     """CHILD: build the table, run all 12 API variants for every (columns, filter dict)."""
     table = make_table(path, case)
     try:
-        return [run_apis(table, cols, fpy) for cols, fpy in requests]
+        with reading(case):
+            if "tz" in case:
+                from datashard import load_table
+                table = load_table(path)                   # the reading process opens the table itself
+            return [run_apis(table, cols, fpy) for cols, fpy in requests]
     finally:
         shutil.rmtree(path, ignore_errors=True)
 
@@ -754,6 +843,14 @@ def shrink(ctx, case, flt, columns, key: str, budget: int = 60):
             budget -= 1
             if still(case, flt, None):
                 columns, changed = None, True
+                continue
+        if case.get("tz"):
+            # the zones: none at all (the failure does not depend on the process environment), then UTC on the writing side
+            for c2 in ([{k: v for k, v in case.items() if k != "tz"}] + ([dict(case, tz=["UTC", case["tz"][1]])] if case["tz"][0] != "UTC" else [])):
+                budget -= 1
+                if still(c2, flt, columns):
+                    case, changed = c2, True
+                    break
     return case, flt, columns
 
 
@@ -793,13 +890,15 @@ def report(ctx, verdict, case, flt, columns, results, source: str) -> None:
             why = str(m_)
         except sqlref.Unjudged:
             why = ""
-        text = why.endswith(("not a str", "not a bytes", "not a bytearray"))
-        if why.startswith("between needs (lo, hi), not a") and text:
+        is_text = why.endswith(("not a str", "not a bytes", "not a bytearray"))
+        if why.startswith("between needs (lo, hi), not a") and is_text:
             sub = "between-text-unpacked"
-        elif why.startswith("in / not_in need a list of values, not a") and text:
+        elif why.startswith("in / not_in need a list of values, not a") and is_text:
             sub = "text-value-set-iterated"
         elif why.endswith("with the flag False"):
             sub = "null-test-flag-false"
+        elif why.endswith("not a mapping"):
+            sub = "mapping-value-set-read-as-keys"
         else:
             sub = ("scan" if all(n_.startswith("scan(") for n_ in acc) else "other") + ("-empty-table" if not hist.live_files(case) else "-populated-table")
     elif key == "wrong-rows":
@@ -810,7 +909,20 @@ def report(ctx, verdict, case, flt, columns, results, source: str) -> None:
             exp = []
         missing, extra = [r for r in exp if r not in got], [r for r in got if r not in exp]
         sub = "rows-missing" if missing and not extra else "rows-extra" if extra and not missing else "rows-missing-and-extra"
+        if any(cd[0] == "pair" and cd[2][0] in sqlref.ONE_SHOT_KINDS for _c, cd in flt):
+            # an iterator / generator as value set, consumed by the first reader -- if the same filter with LISTS is answered correctly
+            as_lists = [(c, ("pair", cd[1], ("list", list(cd[2][1]))) if cd[0] == "pair" and cd[2][0] in sqlref.ONE_SHOT_KINDS else cd) for c, cd in flt]
+            try:
+                v3, _r3 = evaluate_case(ctx, case, as_lists, columns)
+            except Exception:  # noqa: BLE001
+                v3 = None
+            if v3 is None or v3[0] != key:
+                sub = "one-shot-value-set-" + sub
     ops = sub
+    if case.get("tz"):
+        source += f"; table written by a process with TZ={case['tz'][0]!r}, read by one with TZ={case['tz'][1]!r}"
+        if key == "wrong-rows" and case["tz"][1] != "UTC" and not ops.startswith("one-shot"):
+            ops += "-reader-outside-utc"
     ctx.violation(f"{key}:{ops}", f"[{source}] filter {sqlref.filter_py(flt)!r} columns={columns}: {text}",
                   case_json(case, flt, columns, {"verdict": key, "results": {k: list(v) if v[0] == "raises" else [v[0], list(v[1])] for k, v in results.items()}}))
 
@@ -847,6 +959,12 @@ CORPUS: List[Dict[str, Any]] = [
     {"name": "('is_null', False) selects the NULL rows",
      "cols": ["s", "k"], "kinds": ["string", "long"], "files": [[{"s": "q", "k": 1}, {"s": None, "k": 2}]],
      "filter": [("s", ("pair", ("str", "is_null"), ("val", False)))], "columns": None},
+    {"name": "an iterator as value set is consumed when the expression is built: pruning sees an empty set and skips every file",
+     "cols": ["a"], "kinds": ["long"], "files": [[{"a": 7}], [{"a": 9}]],
+     "filter": [("a", ("pair", ("str", "in"), ("iter", [7])))], "columns": None},
+    {"name": "a dict as value set is read as the set of its keys",
+     "cols": ["a"], "kinds": ["long"], "files": [[{"a": 7}], [{"a": 9}]],
+     "filter": [("a", ("pair", ("str", "in"), ("dict", [7])))], "columns": None},
     {"name": "heterogeneous IN list raises in scan() only when every file is pruned",
      "cols": ["x", "k"], "kinds": ["long", "long"], "files": [[{"x": 1, "k": 1}, {"x": 2, "k": 2}]],
      "filter": [("x", ("pair", ("str", "in"), ("list", [1, "a"]))), ("k", ("pair", ("str", ">"), ("val", 100)))], "columns": None},
@@ -884,6 +1002,7 @@ MALFORMED: List[Tuple[str, Tuple]] = (
     + [("between text", ("pair", ("str", "Between"), ("val", a))) for a in ("13", "", "abc", b"\x00\x09")]
     + [("text value set", ("pair", ("str", op), ("val", a))) for op in ("in", "NOT_IN") for a in ("13", "", b"\x01\x03")]
     + [("scalar value set", ("pair", ("str", "in"), ("val", a))) for a in (1, None)]
+    + [("mapping as value set", ("pair", ("str", op), ("dict", a))) for op in ("in", "Not_In") for a in ([1], [], [1, 3])]
     + [("null test with the flag False", ("pair", ("str", op), ("val", False))) for op in ("is_null", "IsNotNull")]
 )
 
@@ -933,14 +1052,23 @@ def edge_filters(kind: str, dom: Optional[List[Any]] = None) -> List[List[Tuple[
 
 def oracle_edges(ctx) -> None:
     jobs = []
-    for kind in MODEL_KINDS + NOBOUNDS_KINDS:
+    nk = len(sqlref.ITERABLE_KINDS)
+    for kn, kind in enumerate(MODEL_KINDS + NOBOUNDS_KINDS):
         dom = [canon_cell(kind, v) for v in DOMAIN[kind]]
         rows = [{"c0": v, "c1": i % 3} for i, v in enumerate(dom)] + [{"c0": None, "c1": 1}, {"c0": dom[0], "c1": None}, {"c0": None, "c1": None}]
         case = {"cols": ["c0", "c1"], "kinds": [kind, "long"], "files": [rows[:2], rows[2:], [dict(rows[0])]]}
+        if kn % 2 or kind in TEMPORAL_KINDS:
+            case = with_tz(ctx.rng, case)
         reqs = []
         for k, flt in enumerate(edge_filters(kind)):
             for columns in ((None, ["c1"]) if ctx.tier == "thorough" else ((None,) if k % 2 else (["c1"],))):
                 reqs.append((flt, columns, sqlref.filter_py(flt)))
+            if has_value_set(flt):
+                # the same value set held by the other iterable kinds (all of them in the thorough tier, three per filter --
+                # rotating, so that every column type meets every kind -- in the quick one)
+                for j in (range(nk) if ctx.tier == "thorough" else [(kn + k + 4 * i) % nk for i in range(3)]):
+                    f2 = vary_value_sets(flt, j)
+                    reqs.append((f2, None, sqlref.filter_py(f2)))
         jobs.append((case, reqs, f"edge cases on a {kind} column"))
     ctx.stats["edge_cases"] = judge_all(ctx, jobs, run_tables(ctx, jobs), "edges")
 
@@ -1000,11 +1128,19 @@ def oracle_extremes(ctx) -> None:
         reqs = []
         for k, flt in enumerate(flts):
             columns = None if k % 3 else ["c1"]
+            if k % 2 and has_value_set(flt):
+                flt = vary_value_sets(flt, k // 2)       # value sets at the file extremes held by every iterable kind
             reqs.append((flt, columns, sqlref.filter_py(flt)))
         # several jobs per family so that the pool shares the work
         step = 60
         for a in range(0, len(reqs), step):
             jobs.append((case, reqs[a:a + step], f"literals at the file extremes of a {label} column"))
+        # ... and with the writing / reading process in other time zones: every temporal kind, the others in rotation
+        nz = (3 if ctx.tier == "thorough" else 2) if kind in TEMPORAL_KINDS else (1 if len(jobs) % 3 == 0 else 0)
+        for _z in range(nz):
+            zc = with_tz(ctx.rng, case)
+            part = reqs if len(reqs) <= step else ctx.rng.sample(reqs, step)
+            jobs.append((zc, part, f"literals at the file extremes of a {label} column"))
     ctx.stats["extreme_cases"] = judge_all(ctx, jobs, run_tables(ctx, jobs), "extremes")
 
 
@@ -1089,6 +1225,8 @@ def oracle_rewrites(ctx) -> None:
             files.append(rows)
         for variant in (0, 1):
             case = {"cols": ["c0", "c1"], "kinds": [kind, "long"], "files": files, "history": hist.rewrite_history(nfiles, variant)}
+            if variant == 1 or kind in TEMPORAL_KINDS:
+                case = with_tz(ctx.rng, case)
             add_shape(shapes, case)
             ext = file_extremes(case, "c0")
             flts = extreme_filters("c0", ext, "c1") + edge_filters(kind, [r["c0"] for f in hist.live_files(case) for r in f if r["c0"] is not None])
@@ -1110,7 +1248,7 @@ def oracle_e2e(ctx) -> None:
     ntables = 120 if ctx.tier == "quick" else 900
     nfilters = 10 if ctx.tier == "quick" else 14
     stats = {"all_raise": 0, "empty_result": 0, "nonempty_result": 0, "projected": 0, "empty_tables": 0, "tables_with_long_text": 0,
-             "tables_with_a_zero_row_file": 0,
+             "tables_with_a_zero_row_file": 0, "tables_with_time_zones": 0,
              "filters_with_literal_at_a_file_extreme": 0}
     opmix: Dict[str, int] = {}
     shapes: Dict[str, int] = {}
@@ -1119,6 +1257,10 @@ def oracle_e2e(ctx) -> None:
         # long text: the fixed family plus values at and around a few (random) length boundaries, astral tails included
         long_dom = LONG_TEXT + boundary_family(rng, 2)
         case = gen_table_case(rng, E2E_KINDS, cross=0.15, malformed=0.1, long_text=0.25, long_dom=long_dom, history=0.5, zero_rows=0.12)
+        # the time zones of the writing and of the reading process (always drawn when the table has a temporal column)
+        case = with_tz(rng, case, 1.0 if any(k in TEMPORAL_KINDS for k in case["kinds"]) else 0.3)
+        if case.get("tz"):
+            stats["tables_with_time_zones"] += 1
         add_shape(shapes, case)
         if not hist.live_files(case):
             stats["empty_tables"] += 1
@@ -1345,10 +1487,15 @@ def gen_parse_filter(rng) -> List[Tuple[str, Tuple]]:
             if a < 0.5:
                 return ("val", rng.choice(vals))
             n = rng.choice([0, 1, 2, 2, 3])
+            if a > 0.8:
+                # any other iterable kind (with every operator spelling: a value set for in / not_in only)
+                return sqlref.fit_value_set(rng.choice([k for k in sqlref.ITERABLE_KINDS if k != "range"]), [rng.choice(vals) for _ in range(n)])
             return (rng.choice(["list", "tuple"]), [rng.choice(vals) for _ in range(n)])
         if r < 0.15:
             a = arg()
             if a[0] == "tuple" and len(a[1]) == 2:
+                a = ("list", a[1])
+            if a[0] in sqlref.ITERABLE_KINDS:
                 a = ("list", a[1])
             cond = ("plain", a)
         elif r < 0.75:
@@ -1361,13 +1508,21 @@ def gen_parse_filter(rng) -> List[Tuple[str, Tuple]]:
     return flt
 
 
+def plain_value(v: Any) -> Any:
+    """expr.value as the correspondences compare it: a scalar, a list / tuple, or -- when the library kept some other
+    iterable in the FilterExpression -- a marker naming its type (never equal to what the model holds: a list)."""
+    if isinstance(v, (list, tuple)) or v is None or isinstance(v, (bool, int, float, str, bytes, dt.date, dt.time)):
+        return v
+    return ("kept-as", type(v).__name__)
+
+
 def w_parse(fpys: List[Dict[str, Any]]) -> List[Optional[List[Tuple[str, str, Any]]]]:
     """CHILD: filters.parse_filter_dict on each filter dict -> [(column, op name, value)] or None when it raises."""
     from datashard import filters
     out: List[Optional[List[Tuple[str, str, Any]]]] = []
     for fpy in fpys:
         try:
-            out.append([(e.column, e.op.name, e.value) for e in filters.parse_filter_dict(fpy)])
+            out.append([(e.column, e.op.name, plain_value(e.value)) for e in filters.parse_filter_dict(sqlref.realise(fpy))])
         except Exception:  # noqa: BLE001
             out.append(None)
     return out
@@ -1387,6 +1542,8 @@ def corr_parse(ctx) -> None:
     cases = [[("c0", ("pair", ("str", s), ("val", 1)))] for s in OP_SPELLINGS + UNKNOWN_OPS + [s.upper() for s in OP_SPELLINGS]]
     cases += [[("c0", ("pair", ("str", "between"), a))] for a in
               (("tuple", [1, 2]), ("list", [1, 2]), ("tuple", [1]), ("tuple", [1, 2, 3]), ("val", "ab"), ("val", "abc"), ("val", ""), ("val", 5), ("val", None), ("list", [None, "x"]))]
+    cases += [[("c0", ("pair", ("str", op), sqlref.fit_value_set(k, vs)))] for op in ("in", "NOT_IN", "between", "is_null", "==", "<")
+              for k in sqlref.ITERABLE_KINDS for vs in ([], [1, 2], [None, "a"])]
     cases += [gen_parse_filter(rng) for _ in range(2500 if ctx.tier == "thorough" else 500)]
     exprs, impl = [], []
     accepted = 0
@@ -1398,7 +1555,17 @@ def corr_parse(ctx) -> None:
         if es is not None:
             items = []
             for column, opname, v in es:
-                arg = f"(AList {vals_to_coq(list(v))})" if isinstance(v, (list, tuple)) else f"(AVal {val_to_coq(v)})"
+                if isinstance(v, tuple) and len(v) == 2 and v[0] == "kept-as":
+                    # the FilterExpression holds the iterable itself: as the literal of a comparison the model renders it as
+                    # the list of its values; as an in / not_in value set it must have been materialised (never equal)
+                    given = dict(flt)[column][2]
+                    arg = f"(AList {vals_to_coq(list(given[1]))})" if opname not in ("IN", "NOT_IN") else f"(AVal {val_to_coq('<' + v[1] + ' kept>')})"
+                else:
+                    given = dict(flt)[column]
+                    if given[0] == "pair" and given[2][0] in ("set", "frozenset") and isinstance(v, list) \
+                            and sorted(map(repr, v)) == sorted(map(repr, given[2][1])):
+                        v = list(given[2][1])        # a hashed container iterates in an order of its own: compared as a multiset
+                    arg = f"(AList {vals_to_coq(list(v))})" if isinstance(v, (list, tuple)) else f"(AVal {val_to_coq(v)})"
                 items.append(f"({colnum[column]}, {opname}, {arg})")
             exp = "Some [" + "; ".join(items) + "]"
             accepted += 1
@@ -1468,7 +1635,7 @@ def gen_model_cond(rng, kind: str, cross: float, malformed: float, dom: Optional
         # cross-API agreement in the e2e oracle.  The concrete E0 / X0 instance is exact for same-kind sets only.
         k = sqlref.COLKIND[kind]
         vals = [v for v in vals if v is None or sqlref.pykind(v) == k]
-        return ("pair", ("str", rand_case(rng, op)), ("list" if len(vals) == 2 else rng.choice(["list", "tuple"]), vals))
+        return ("pair", ("str", rand_case(rng, op)), value_set_arg(rng, vals, 0.4))
     if r < 0.9:
         return ("pair", ("str", rand_case(rng, "between")), (rng.choice(["list", "tuple"]), [lit(), lit()]))
     op = rng.choice(["is_null", "isnull", "is_not_null", "notnull", "isnotnull"])
@@ -1482,7 +1649,7 @@ def w_build(cases: List[Tuple[List[str], List[Dict[str, Any]], Dict[str, Any]]])
     out = []
     for kinds, rows, fpy in cases:
         try:
-            fes = filters.parse_filter_dict(fpy)
+            fes = filters.parse_filter_dict(sqlref.realise(fpy))
         except Exception:  # noqa: BLE001
             out.append(None)
             continue
@@ -1497,7 +1664,7 @@ def w_build(cases: List[Tuple[List[str], List[Dict[str, Any]], Dict[str, Any]]])
             got = (0, kept)
         except Exception:  # noqa: BLE001
             got = (phase, [])
-        out.append(([(e.column, e.op.name, e.value) for e in fes], got))
+        out.append(([(e.column, e.op.name, plain_value(e.value)) for e in fes], got))
     return out
 
 
@@ -1563,7 +1730,7 @@ def phase_of(flt_py: Optional[Dict[str, Any]]) -> int:
     if not flt_py:
         return 0
     try:
-        es = filters.parse_filter_dict(flt_py)
+        es = filters.parse_filter_dict(sqlref.realise(flt_py))
     except Exception:  # noqa: BLE001
         return 1
     try:
@@ -1579,17 +1746,18 @@ def w_run_pipelines(path: str, case: Dict[str, Any], requests):
     out = []
     try:
         for columns, fpy in requests:
-            ph = phase_of(fpy)
-            gots = []
-            for _name, fn, _mkey in MODEL_APIS:
-                try:
-                    rows = fn(table, list(columns) if columns is not None else None, fpy)
-                    gots.append((0, rows))
-                except KeyError:
-                    gots.append((4, []))
-                except Exception:  # noqa: BLE001
-                    gots.append((ph if ph else 3, []))
-            out.append((ph, gots))
+            with reading(case):
+                ph = phase_of(fpy)
+                gots = []
+                for _name, fn, _mkey in MODEL_APIS:
+                    try:
+                        rows = fn(table, list(columns) if columns is not None else None, sqlref.realise(fpy))
+                        gots.append((0, rows))
+                    except KeyError:
+                        gots.append((4, []))
+                    except Exception:  # noqa: BLE001
+                        gots.append((ph if ph else 3, []))
+                out.append((ph, gots))
     finally:
         shutil.rmtree(path, ignore_errors=True)
     return out
@@ -1610,6 +1778,7 @@ def corr_pipelines(ctx) -> None:
         # transactions, expiry): the model scans the LIVE files of the list semantics with their exact bounds
         # (C12_history_sql), so a bound that a manifest rewrite changed shows as a pruning disagreement too
         case = gen_table_case(rng, KINDS, 0.0, 0.0, max_files=3, long_text=0.2, long_dom=MODEL_LONG_TEXT, history=0.35, max_steps=4, zero_rows=0.2)
+        case = with_tz(rng, case, 1.0 if any(k in TEMPORAL_KINDS for k in case["kinds"]) else 0.25)
         if case.get("history") is not None:
             with_history += 1
         reqs = []
@@ -1700,11 +1869,14 @@ def corr_pipelines(ctx) -> None:
 def w_history(path: str, case: Dict[str, Any]):
     """CHILD: run the history; -> (manifests of the current snapshot as stored, data files the scans will read)."""
     try:
-        table, paths = hist.build(path, case)
+        with procconf.timezone(write_zone(case), keep="tz" not in case):
+            table, paths = hist.build(path, case)
         by_path = {p.lstrip("/"): i for i, p in paths.items()}
-        view = hist.manifest_view(table, paths)
-        dfs = [(by_path.get(df.file_path.lstrip("/"), -1), sorted((df.lower_bounds or {}).items()), sorted((df.upper_bounds or {}).items()))
-               for df in table._get_all_data_files()]
+        # the manifests are decoded by the READING process: in its zone (the model's codec knows no zone)
+        with reading(case):
+            view = hist.manifest_view(table, paths)
+            dfs = [(by_path.get(df.file_path.lstrip("/"), -1), sorted((df.lower_bounds or {}).items()), sorted((df.upper_bounds or {}).items()))
+                   for df in table._get_all_data_files()]
         return view, dfs
     finally:
         shutil.rmtree(path, ignore_errors=True)
@@ -1737,9 +1909,11 @@ def corr_history(ctx) -> None:
         files = [[{"c0": vals[j % len(vals)], "c1": j}] + ([{"c0": None, "c1": 50 + j}] if j % 2 else []) + ([{"c0": nan[0], "c1": 60 + j}] if nan and j == 1 else [])
                  for j in range(5)]
         for variant in (0, 1):
-            cases.append({"cols": ["c0", "c1"], "kinds": [kind, "long"], "files": files, "history": hist.rewrite_history(5, variant)})
+            case = {"cols": ["c0", "c1"], "kinds": [kind, "long"], "files": files, "history": hist.rewrite_history(5, variant)}
+            cases.append(with_tz(rng, case) if (variant or kind in TEMPORAL_KINDS) else case)
     for _ in range(40 if ctx.tier == "quick" else 400):
-        cases.append(gen_table_case(rng, KINDS, 0.0, 0.0, long_text=0.2, long_dom=MODEL_LONG_TEXT, history=1.0, max_steps=5))
+        case = gen_table_case(rng, KINDS, 0.0, 0.0, long_text=0.2, long_dom=MODEL_LONG_TEXT, history=1.0, max_steps=5)
+        cases.append(with_tz(rng, case, 1.0 if any(k in TEMPORAL_KINDS for k in case["kinds"]) else 0.3))
     jobs = [("w_history", (os.path.join(ctx.scratch, f"h{t}"), wire(case)), 60.0 + 2.0 * len(case["files"])) for t, case in enumerate(cases)]
     ran = pool().map(jobs)
     exprs, descs = [], []
@@ -1814,7 +1988,7 @@ def run(ctx) -> None:
         "all files of a table share the parquet schema `sch` (C11); projections are judged against it",
         "date vs timestamp comparisons (pyarrow casts, Python refuses) and inexact literals on float32 columns are outside the model; the oracle demands cross-API agreement there",
         "NaN membership (NaN in [NaN]) is judged by cross-API agreement only (DESIGN.md C12 Interpretation)",
-        "histories: every data file has its own path (uuid names; NoDup hypothesis of C12_history_files); paths are compared after stripping "
+        "histories: the generated histories give every data file its own path (uuid names; C12_history_files / C12_history_sql do not need it: dedup form); paths are compared after stripping "
         "leading '/' on both sides (pinned by the translator; the oracle deletes by both spellings); the JSON text and the Avro map between "
         "_encode_bound and _decode_bound carry (tag, payload) exactly (Model/Bound.v; checked per entry by the 'history' correspondence)",
         "the content of a table after a history is DEFINED by the list semantics (a committed transaction removes the files it deletes and "
